@@ -281,21 +281,27 @@ Theorem C18_mem_create_then_found : forall D st s c,
 Proof. exact mem_create_then_has. Qed.
 Print Assumptions C18_mem_create_then_found.
 
-(** ** CheckReader *)
+(** ** CheckReader
+
+    The reader's byte count is Go's int64 ([wrap64] in the model).  [small b]:
+    fewer than 2^63 bytes — every stream there will ever be; within that
+    bound the count is exact and the declared-length check cannot be fooled
+    (beyond it the count wraps: [wrap64_at_the_edge]). *)
 
 (** For every script of the underlying reader (every chunking, both EOF
     styles, errors at any point): end of stream is reported exactly when the
     underlying stream ended cleanly, its bytes have the expected digest, and
     their number is the declared one if one was declared. *)
 Theorem C18_check_reader_eof_iff : forall D want n s,
-  snd (cr_consume D (new_cr want n) s) = CEof <->
-  snd (drain s) = REof /\ D (fst (drain s)) = want /\
-  ((n < 0)%Z \/ lenZ (fst (drain s)) = n).
+  small (fst (drain s)) ->
+  (snd (cr_consume D (new_cr want n) s) = CEof <->
+   snd (drain s) = REof /\ D (fst (drain s)) = want /\
+   ((n < 0)%Z \/ lenZ (fst (drain s)) = n)).
 Proof. exact check_reader_eof_iff. Qed.
 Print Assumptions C18_check_reader_eof_iff.
 
 Theorem C18_check_reader_every_call : forall D s r i,
-  cr_ok r ->
+  cr_ok r -> (lenZ (cr_acc r ++ delivered s) < two63Z)%Z ->
   nth_error (cr_trace D r s) i =
   match nth_error s i with
   | Some (chunk, st) =>
@@ -306,24 +312,42 @@ Theorem C18_check_reader_every_call : forall D s r i,
 Proof. exact cr_trace_spec. Qed.
 Print Assumptions C18_check_reader_every_call.
 
+(** A caller that stops reading early has been told nothing: a call reports
+    end-of-stream only if the underlying reader did so on that very call and
+    everything handed out up to and including it has the expected digest and
+    length.  (A caller that reads exactly the declared number of bytes and
+    never asks for more gets no verdict at all.) *)
+Theorem C18_check_reader_eof_at_call : forall D want n s i c,
+  small (delivered s) ->
+  nth_error (cr_trace D (new_cr want n) s) i = Some (c, CEof) ->
+  nth_error s i = Some (c, REof) /\
+  D (delivered (firstn (S i) s)) = want /\
+  ((n < 0)%Z \/ lenZ (delivered (firstn (S i) s)) = n).
+Proof. exact check_reader_eof_at_call. Qed.
+Print Assumptions C18_check_reader_eof_at_call.
+
 Theorem C18_check_reader_transparent : forall D want n s,
+  small (fst (drain s)) ->
   fst (cr_consume D (new_cr want n) s) = fst (drain s).
 Proof. exact check_reader_transparent. Qed.
 Print Assumptions C18_check_reader_transparent.
 
 Theorem C18_check_reader_ends_in_eof_or_error : forall D want n s,
+  small (fst (drain s)) ->
   snd (cr_consume D (new_cr want n) s) <> CNil.
 Proof. exact check_reader_terminal. Qed.
 Print Assumptions C18_check_reader_ends_in_eof_or_error.
 
 Theorem C18_check_reader_passes_errors : forall D want n s e,
+  small (fst (drain s)) ->
   snd (drain s) = RFail e -> snd (cr_consume D (new_cr want n) s) = CFail e.
 Proof. exact check_reader_passes_errors. Qed.
 Print Assumptions C18_check_reader_passes_errors.
 
-(** With a declared length, every truncation and every extension is an
-    error, with no assumption about the hash. *)
+(** With a declared length, every truncation and every extension (of fewer
+    than 2^63 bytes) is an error, with no assumption about the hash. *)
 Theorem C18_check_reader_wrong_length_is_error : forall D x s,
+  small (fst (drain s)) ->
   snd (drain s) = REof ->
   length (fst (drain s)) <> length x ->
   snd (cr_consume D (new_cr (D x) (lenZ x)) s) = CBadLen.
@@ -332,6 +356,7 @@ Print Assumptions C18_check_reader_wrong_length_is_error.
 
 (** Any other stream accepted as [x] is a collision of the hash. *)
 Theorem C18_check_reader_wrong_bytes_need_collision : forall D x n s,
+  small (fst (drain s)) ->
   (n < 0)%Z \/ n = lenZ x ->
   fst (drain s) <> x ->
   snd (cr_consume D (new_cr (D x) n) s) = CEof ->
@@ -340,6 +365,7 @@ Proof. exact check_reader_wrong_bytes_is_error. Qed.
 Print Assumptions C18_check_reader_wrong_bytes_need_collision.
 
 Theorem C18_check_reader_accepts_genuine : forall D x n s,
+  small x ->
   (n < 0)%Z \/ n = lenZ x ->
   drain s = (x, REof) ->
   cr_consume D (new_cr (D x) n) s = (x, CEof).
@@ -347,11 +373,20 @@ Proof. exact check_reader_accepts_genuine. Qed.
 Print Assumptions C18_check_reader_accepts_genuine.
 
 Theorem C18_check_reader_verdict_is_sticky : forall D want n s k i c st,
+  small (delivered s) ->
   nth_error (cr_trace D (new_cr want n) (s ++ repeat ([], REof) k)) (length s + i) = Some (c, st) ->
   (i < k)%nat ->
   c = [] /\ st = verdict D (declared n) want (delivered s) REof.
 Proof. exact check_reader_sticky. Qed.
 Print Assumptions C18_check_reader_verdict_is_sticky.
+
+(** Where the int64 count wraps: 2^63 - 1 is still exact, one more byte makes
+    it negative, and 2^64 extra bytes are invisible to it. *)
+Theorem C18_check_reader_count_wraps_only_at_2_63 :
+  wrap64 (two63Z - 1) = (two63Z - 1)%Z /\ wrap64 two63Z = (- two63Z)%Z /\
+  forall k, (0 <= k < two63Z)%Z -> wrap64 (k + 2 * two63Z) = k.
+Proof. exact wrap64_at_the_edge. Qed.
+Print Assumptions C18_check_reader_count_wraps_only_at_2_63.
 
 Theorem C18_new_check_reader_of_hex : forall d n,
   is_bytes d -> length d = 32%nat ->
@@ -421,6 +456,9 @@ Example C18_nonvacuous_os_fault :
   map res (sthr s) = [Some (RErr ERename)] /\ objs (sfs s) = [] /\ tmp (sfs s) = [] /\
   lock (sfs s) = None.
 Proof. vm_compute. repeat split. Qed.
+
+Example C18_nonvacuous_small : small [1; 2; 3] /\ small (delivered [([1], RNil); ([2; 3], REof)]).
+Proof. split; reflexivity. Qed.
 
 Example C18_nonvacuous_check_reader :
   cr_consume toyD (new_cr (toyD [1; 2; 3]) 3) [([1], RNil); ([2; 3], REof)] = ([1; 2; 3], CEof) /\
